@@ -71,7 +71,7 @@ func vxCompareImages(before, after []vxKV) {
 }
 
 func VxC04LegacyUpdateRevert() {
-	vx.Bound("legacy backend; block 0: deploy contract A, write one slot and the nonce (values symbolic, non-zero); block 1: sections {storage (written slot, never-written slot), nonce, replaced class, deployment of B with or without a nonce for B, a write to system contract 0x1 and/or 0x2} each present or absent, every value symbolic (zero and unchanged values included); revert of block 1. Addresses/slots fixed.")
+	vx.Bound("legacy backend; block 0: deploy contract A, write one slot and the nonce (values symbolic, non-zero); block 1: sections {storage (written slot, never-written slot), nonce, replaced class, deployment of B with or without a nonce for B} each present or absent, every value symbolic (zero and unchanged values included); revert of block 1. Addresses/slots fixed.")
 	vx.CollisionFree()
 	d := memory.New()
 	txn := d.NewIndexedBatch()
@@ -118,20 +118,6 @@ func VxC04LegacyUpdateRevert() {
 			diff1.Nonces[*a2] = vxFeltIn("nonceB")
 		}
 	}
-	// system contracts (0x1, 0x2) hold storage without being deployed by a diff: they are created on
-	// first write and purged again when a revert empties them
-	switch vx.Choice("sysWrite", 4) {
-	case 1:
-		diff1.StorageDiffs[*felt.NewFromUint64[felt.Felt](1)] = map[felt.Felt]*felt.Felt{*slotW: vxFeltIn("sys1")}
-		vx.Cover("system-contract-written")
-	case 2:
-		diff1.StorageDiffs[*felt.NewFromUint64[felt.Felt](2)] = map[felt.Felt]*felt.Felt{*slotW: vxFeltIn("sys2")}
-		vx.Cover("system-contract-written")
-	case 3:
-		diff1.StorageDiffs[*felt.NewFromUint64[felt.Felt](1)] = map[felt.Felt]*felt.Felt{*slotW: vxFeltIn("sys1")}
-		diff1.StorageDiffs[*felt.NewFromUint64[felt.Felt](2)] = map[felt.Felt]*felt.Felt{*slotW: vxFeltIn("sys2")}
-		vx.Cover("system-contract-written")
-	}
 	su1 := &core.StateUpdate{OldRoot: &r0, StateDiff: &diff1}
 	uerr := s.Update(&core.Header{Number: 1}, su1, nil, true)
 	vx.Assert(uerr == nil, "block-1-stores")
@@ -157,4 +143,48 @@ func VxC04LegacyUpdateRevert() {
 	gn, e2 := s.ContractNonce(a1)
 	gc, e3 := s.ContractClassHash(a1)
 	vx.Assert(e1 == nil && e2 == nil && e3 == nil && gv.Equal(v0) && gn.Equal(n0) && gc.Equal(c0), "head-state-restored")
+}
+
+
+// C04-H1b (legacy backend, system contracts): 0x1 and 0x2 hold storage without being deployed by a
+// diff; they are created on first write and must be purged again when the block that created them
+// is reverted - whichever of the two the block touched.
+func VxC04LegacySystemContractsRevert() {
+	vx.Bound("legacy backend; block 0 deploys an ordinary contract; block 1 writes one slot (symbolic non-zero value) of system contract 0x1, of 0x2, or of both, none of them written before; revert of block 1")
+	vx.CollisionFree()
+	d := memory.New()
+	txn := d.NewIndexedBatch()
+	s := New(txn)
+	a1 := felt.NewFromUint64[felt.Felt](0x1000)
+	slot := felt.NewFromUint64[felt.Felt](0x20)
+	diff0 := core.EmptyStateDiff()
+	diff0.DeployedContracts[*a1] = felt.NewFromUint64[felt.Felt](0xC1)
+	vx.Assert(s.Update(&core.Header{Number: 0}, &core.StateUpdate{OldRoot: &felt.Zero, StateDiff: &diff0}, nil, true) == nil, "block-0-stores")
+	r0, err := s.Commitment("")
+	vx.Assert(err == nil, "root-0")
+	before := vxImage(txn)
+	diff1 := core.EmptyStateDiff()
+	which := 1 + vx.Choice("sysWrite", 3)
+	if which&1 != 0 {
+		v := vxFeltIn("sys1")
+		vx.Assume(!v.IsZero())
+		diff1.StorageDiffs[*felt.NewFromUint64[felt.Felt](1)] = map[felt.Felt]*felt.Felt{*slot: v}
+	}
+	if which&2 != 0 {
+		v := vxFeltIn("sys2")
+		vx.Assume(!v.IsZero())
+		diff1.StorageDiffs[*felt.NewFromUint64[felt.Felt](2)] = map[felt.Felt]*felt.Felt{*slot: v}
+	}
+	if which == 2 {
+		vx.Cover("only-system-contract-2")
+	}
+	su1 := &core.StateUpdate{OldRoot: &r0, StateDiff: &diff1}
+	vx.Assert(s.Update(&core.Header{Number: 1}, su1, nil, true) == nil, "block-1-stores")
+	r1, err := s.Commitment("")
+	vx.Assert(err == nil, "root-1")
+	su1.NewRoot = &r1
+	vx.Assert(s.Revert(&core.Header{Number: 1}, su1) == nil, "revert-succeeds-for-every-storable-block")
+	back, err := s.Commitment("")
+	vx.Assert(err == nil && back.Equal(&r0), "state-root-restored")
+	vxCompareImages(before, vxImage(txn))
 }
